@@ -26,6 +26,7 @@ _REAL_MOVE = shutil.move
 _REAL_REPLACE = SER.atomicReplace
 
 ARMED = {'proc': None, 'k': None, 'fired': None, 'count': 0}
+IN_CHILD = False     # set in a forked snapshot child: its writes are not kill points of the simulation
 _installed = False
 
 
@@ -45,6 +46,8 @@ def files_of(p):
 
 def point(kind):
     """Called before and after every storage primitive."""
+    if IN_CHILD:
+        return
     p = cur_proc()
     if p is None:
         return
